@@ -149,3 +149,12 @@ def exc_bucket(exc, where=""):
             frame = f"{fs.filename.split('/autograd/')[-1]}:{fs.name}"
             break
     return f"{type(exc).__name__}@{frame or where}"
+
+
+def describe_exc(e, limit=3):
+    """Exception summary with the innermost autograd frames (for failure details)."""
+    import traceback
+
+    frames = [f"{fs.filename.split('/autograd/')[-1]}:{fs.lineno}:{fs.name}" for fs in traceback.extract_tb(e.__traceback__)
+              if "/autograd/" in fs.filename]
+    return f"{type(e).__name__}: {e} @ {' > '.join(frames[-limit:])}"[:400]
